@@ -136,7 +136,7 @@ def plan(tier):
     for a in main:
         add("k2-" + a, "%s,%s" % (a, a))
         add("k3-episode-" + a, "enter,%s,leave" % a, kinds="r" if tier == "quick" else "rd")
-    add("k2-arcs", "arcs,arcs", kinds="rd")
+    add("k2-arcs", "arcs,arcs", kinds="d" if tier == "quick" else "rd")
     from harness import inductive
     for start in ("outside", "inside"):
         SCENARIOS["ind-" + start] = scen_ind
